@@ -51,12 +51,18 @@ def run_harnesses(repo, work, harnesses, timeout=1500, extra_flags=()):
     for h in harnesses:
         cmd += ["--harness", h]
     t0 = time.time()
+    import signal
+    proc = subprocess.Popen(cmd, cwd=dst, env=env, stdout=subprocess.PIPE, stderr=subprocess.STDOUT, text=True, start_new_session=True)
     try:
-        p = subprocess.run(cmd, cwd=dst, env=env, capture_output=True, text=True, timeout=timeout)
-        out = p.stdout + "\n" + p.stderr
-    except subprocess.TimeoutExpired as e:
-        out = (e.stdout or b"").decode(errors="replace") if isinstance(e.stdout, bytes) else (e.stdout or "")
-        out += "\nTIMEOUT"
+        out, _ = proc.communicate(timeout=timeout)
+    except subprocess.TimeoutExpired:
+        # kill the whole process group: cbmc children survive a plain kill of cargo-kani
+        try:
+            os.killpg(proc.pid, signal.SIGKILL)
+        except Exception:
+            pass
+        out, _ = proc.communicate()
+        out = (out or "") + "\nTIMEOUT"
     dt = time.time() - t0
     # split per harness (with -j the output is tagged "Thread k:")
     seen, tmap, cur = {}, {}, None
